@@ -154,6 +154,9 @@ def run_codes(ctx, case):
         ctx.close(fixed, cw, 1e-9, 'every listed stabilizer fixes every code word')
         images.append(outs)
         ctx.tick()
+    zs = nq.qec.check_stabilizer(stabs, cw)
+    ctx.require(np.shape(zs) == (K, len(stabs)), 'check_stabilizer: one expectation value per (code word, stabilizer)', f'{np.shape(zs)}')
+    ctx.close(zs, np.ones((K, len(stabs))), 1e-9, 'check_stabilizer: <c|S|c> = 1 for every code word and stabilizer')
     # pairwise commutation on the random probes
     for a in range(len(stabs)):
         for b in range(a + 1, len(stabs)):
